@@ -771,11 +771,11 @@ def broker_behaviours(v, spec, depth, mode="cover", maxqos=2):
     return behs
 
 
-def broker_replay(v, pid, behs, label, auth="mockSuccess", maxqos=2, own_tags=None, frag=0, orderonly=False):
+def broker_replay(v, pid, behs, label, auth="mockSuccess", maxqos=2, own_tags=None, frag=0, orderonly=False, pipe=False):
     own_tags = own_tags or {pid}
     if len(behs) == 0:
         raise Infra("%s: the specification produced no behaviours to replay" % label)
-    res = core.merge(core.run_sharded(["brokerreplay", "-auth", auth, "-maxqos", str(maxqos), "-frag", str(frag), "-own", ",".join(sorted(own_tags))] + (["-orderonly", "1"] if orderonly else []), behs, timeout=2400))
+    res = core.merge(core.run_sharded(["brokerreplay", "-auth", auth, "-maxqos", str(maxqos), "-frag", str(frag), "-own", ",".join(sorted(own_tags))] + (["-orderonly", "1"] if orderonly else []) + (["-pipe", "1"] if pipe else []), behs, timeout=2400))
     mine = [m for m in res.get("mismatches", []) if m.get("tag") in own_tags]
     foreign = [m for m in res.get("mismatches", []) if m.get("tag") not in own_tags]
     v.cov["parts"][label] = {"behaviours": res.get("evaluations", 0), "steps": res.get("steps", 0),
@@ -804,7 +804,7 @@ BROKER_ASSUME = ["sequential regime: one stimulus at a time, broker reaction obs
                  "the retain flag of a live forward to an in-process (Server.Subscribe) callback is not specified (the library hands the publisher's message object to the callback)"]
 
 
-def broker_check(pid, tier, plan, own, rule, extra=None, frag_item=None):
+def broker_check(pid, tier, plan, own, rule, extra=None, frag_item=None, pipe_item=None):
     v = Verdict(pid, tier)
     thorough = tier == "thorough"
     for idx, item in enumerate(plan):
@@ -818,6 +818,10 @@ def broker_check(pid, tier, plan, own, rule, extra=None, frag_item=None):
             # byte (thorough: also in the middle, and byte by byte)
             for fm in ([1, 3] if not thorough else [1, 2, 3, 4]):
                 broker_replay(v, pid, behs, "%s(%s,%d) segmented writes, mode %d" % (spec, mode, d, fm), auth=auth, maxqos=maxqos, own_tags=own, frag=fm)
+        if idx == pipe_item:
+            # the same behaviours with every CONNECT and the packet its connection sends next in one write (a client that
+            # does not wait for the CONNACK); the outputs of the two steps are compared together
+            broker_replay(v, pid, behs, "%s(%s,%d) CONNECT and the next packet in one write" % (spec, mode, d), auth=auth, maxqos=maxqos, own_tags=own, pipe=True)
     if extra:
         extra(v)
     v.cov["rule"] = rule + " distinct_nontrivial = behaviours replayed (each is a distinct operation sequence; cover mode: the maximal witnesses of one-witness-per-transition)."
@@ -884,14 +888,14 @@ def c08(tier):
 def c09(tier):
     return broker_check("C09", tier, [("WillSpec", "paths", 6, 7, "mockSuccess"), ("WillSpec", "cover", 7, 8, "mockSuccess"), ("WillEofSpec", "paths", 4, 6, "mockSuccess")], {"C09", "C01", "C08", "C07"},   # in this configuration every retained message is a will
                         "configuration will: all sequences of connect (CleanSession x {no will, QoS 0, QoS 1 + retain, QoS 2 + empty payload}) / end (DISCONNECT, "
-                        "cut, malformed packet) on one client id, witness subscribed to '#'; the will deliveries per connection end are compared.")
+                        "cut, malformed packet) on one client id, witness subscribed to '#'; the will deliveries per connection end are compared.", pipe_item=0)
 
 
 @check("C10")
 def c10(tier):
     return broker_check("C10", tier, [("SessSpec", "cover", 6, 7, "mockSuccess"), ("Sess1Spec", "paths", 6, 7, "mockSuccess"), ("Sess1LastSpec", "paths", 8, 10, "mockSuccess")], {"C10", "C01", "C07"},
                         "configuration session: connect (CleanSession 0/1) / subscribe / unsubscribe / DISCONNECT / cut over two client ids and two slots, probe "
-                        "publishes; SessionPresent and deliveries to restored subscriptions compared.", frag_item=1)
+                        "publishes; SessionPresent and deliveries to restored subscriptions compared.", frag_item=1, pipe_item=1)
 
 
 @check("C11")
@@ -900,7 +904,7 @@ def c11(tier):
                         "configuration admit: 14 kinds of refused first packets (unsupported level, name mismatch, client id too long / unprintable / empty with "
                         "CleanSession 0, reserved flag, will flags, other packet types, truncated CONNECT, garbage, bad fixed-header flags) with follow-up "
                         "SUBSCRIBE '#' and retained PUBLISH on the refused connection, accepting and rejecting authenticators; CONNACK bytes, closure, witness "
-                        "deliveries and a late subscriber's retained view compared.", frag_item=1)
+                        "deliveries and a late subscriber's retained view compared.", frag_item=1, pipe_item=0)
 
 
 # ------------------------------------------------------------------------------------------ C19
